@@ -1362,6 +1362,19 @@ func (env *specEnv) locOf(e ast.Expr) []*locRef {
 		env.fail("bad location %s", exprString(e))
 	case *ast.CallExpr:
 		if id, ok := t.Fun.(*ast.Ident); ok {
+			// pointee(v): the object an interface value designates, when its dynamic type is a pointer type known at
+			// this call site (what a decoder writes through its `interface{}` target)
+			if id.Name == "pointee" && len(t.Args) == 1 {
+				x := env.eval(t.Args[0])
+				if len(x.C) == 2 && x.C[0].IsConst() {
+					if ct, ok := ex.eng.typeByID[x.C[0].val.Int64()]; ok {
+						if _, isPtr := ct.Underlying().(*types.Pointer); isPtr {
+							return []*locRef{env.addrLoc(ex.addrOf(Value{T: ct, C: []*Term{x.C[1]}}))}
+						}
+					}
+				}
+				env.fail("pointee(%s): the dynamic type is not a pointer type known at the call site", exprString(t.Args[0]))
+			}
 			if id.Name == "anymap" && len(t.Args) == 1 {
 				// every entry of every map of the argument's map type
 				x := env.eval(t.Args[0])
